@@ -45,6 +45,16 @@ fn main() {
         }
     }
 
+    if prop == "c19-child" {
+        let c: ppgcheck::big::BigCase = serde_json::from_str(&args[2]).expect("bad case");
+        let r = ppgcheck::big::run_big(&c);
+        println!("{}", serde_json::to_string(&r).unwrap());
+        return;
+    }
+    if prop == "C19" {
+        c19_main(&args, tier, seed, threads);
+        return;
+    }
     if prop == "show" {
         let rp = load_replay(std::path::Path::new(&args[2])).expect("cannot load");
         println!("{} :: {}", rp.signature, rp.detail);
@@ -158,5 +168,110 @@ fn main() {
     if let Some((path, _sig, _d)) = violation {
         println!("VIOLATION property={} replay={}", prop, path);
         std::process::exit(1);
+    }
+}
+
+fn c19_main(args: &[String], tier: &str, seed: u64, threads: usize) {
+    use ppgcheck::big::*;
+    use ppgcheck::bigrun::*;
+    use std::time::Duration;
+    let t0 = Instant::now();
+    let thorough = tier == "thorough";
+    let timeout = Duration::from_secs(if thorough { 900 } else { 240 });
+    if let Some(path) = arg_val(args, "--replay") {
+        let rp = load_big_replay(std::path::Path::new(&path)).unwrap_or_else(|e| {
+            eprintln!("{}", e);
+            std::process::exit(2)
+        });
+        let run = run_c19(0, 100, seed, 1, timeout, vec![rp.big_case.clone()]);
+        match run.violation {
+            Some(v) => {
+                println!("replay shows {}: {}", v.signature, v.detail);
+                println!("VIOLATION property=C19 replay={}", path);
+                std::process::exit(1);
+            }
+            None => {
+                if run.timeouts > 0 {
+                    println!("replay timed out (inconclusive)");
+                    std::process::exit(2);
+                }
+                println!("replay {} shows no violation of C19", path);
+                std::process::exit(0);
+            }
+        }
+    }
+    let mut cases: usize = if thorough { 1500 } else { 160 };
+    if let Some(c) = arg_val(args, "--cases").and_then(|s| s.parse().ok()) {
+        cases = c;
+    }
+    let max_n: usize = arg_val(args, "--max-n").and_then(|s| s.parse().ok()).unwrap_or(if thorough { 30000 } else { 3000 });
+    let mut extra = vec![];
+    let mut replayed = 0;
+    for p in big_replay_files() {
+        match load_big_replay(&p) {
+            Ok(r) => {
+                extra.push(r.big_case);
+                replayed += 1;
+            }
+            Err(e) => {
+                eprintln!("bad replay file {}", e);
+                std::process::exit(2);
+            }
+        }
+    }
+    let run = run_c19(cases, max_n, seed, threads, timeout, extra);
+    let wall = t0.elapsed().as_secs_f64();
+    let known = KnownFindings::load();
+    if run.known_hits > 0 {
+        for f in known.findings.iter().filter(|f| f.property == "C19") {
+            println!("KNOWN-FINDING: property=C19 {} ({} cases)", f.what, run.known_hits);
+        }
+    }
+    let mut samples = run.samples.clone();
+    if samples.is_empty() {
+        samples.push(serde_json::json!("(no case above 60 jobs in this run)"));
+    }
+    let ev = serde_json::json!({
+        "property_id": "C19",
+        "tier": tier,
+        "seed": seed as i64,
+        "level": "exploration",
+        "coverage": {
+            "evaluations": run.evals,
+            "cases_generated": run.cases,
+            "distinct_nontrivial": run.distinct.len(),
+            "rule": "case = (shape in chain/layered fan<=3/fan-in/fan-out/chain+side inputs) x (kind pattern, 8 families) x size (log-uniform, 61..max_n jobs) x cascade (first build, up-to-date re-run, invalidate first, invalidate last, fail root, abort mid-way + resume) x comparison/naming configuration, decoded from a proptest generated byte string, each evaluated in a child process; oracle = no error/crash and the same reference model / post-hoc oracles as for small graphs; non-trivial = more than 60 jobs (the largest size the repository's suite checks semantically); distinct by (shape, kind pattern, cascade, size bucket log2)",
+            "samples": samples,
+            "max_jobs": run.max_jobs,
+            "max_depth": run.max_depth,
+            "max_n_requested": max_n,
+            "by_cascade": run.by_cascade,
+            "by_shape": run.by_shape,
+            "timeouts_inconclusive": run.timeouts,
+            "known_finding_cases": run.known_hits,
+            "replay_files_run": replayed,
+            "exhaustive": false,
+        },
+        "assumptions": [
+            "fan-in of a single job is capped at 6000 (the engine is quadratic there: time, not verdict)",
+            "in layered graphs at least every 8th layer is not Ephemeral (unmemoised recursions in the engine are exponential in all-Ephemeral diamonds: time, not verdict)",
+            "a case that exceeds its time budget is inconclusive, never a violation; a child process that dies (stack overflow) is a violation",
+            "same simulated project, reference model and post-hoc oracles as for the small graphs (C01, C03, C04, C06, C07, C08, C09, C11, C13, C18 clauses), run without the O(n) per step monitors",
+        ],
+        "wall_s": wall,
+        "violations": if run.violation.is_some() { 1 } else { 0 },
+    });
+    let _ = std::fs::create_dir_all(format!("{}/evidence", VERIF_DIR));
+    std::fs::write(format!("{}/evidence/C19.json", VERIF_DIR), serde_json::to_string_pretty(&ev).unwrap()).expect("cannot write evidence");
+    println!("C19 {}: {} cases, {} evaluations, max {} jobs / depth {}, {} timeouts, {:.1}s", tier, run.cases, run.evals, run.max_jobs, run.max_depth, run.timeouts, wall);
+    if let Some(v) = run.violation {
+        let path = write_big_replay(&v);
+        println!("violation {}: {}\n  case: {}", v.signature, v.detail, describe_big(&v.big_case));
+        println!("VIOLATION property=C19 replay={}", path);
+        std::process::exit(1);
+    }
+    if run.cases > 0 && run.timeouts * 2 > run.cases {
+        println!("more than half of the cases timed out: inconclusive");
+        std::process::exit(2);
     }
 }
